@@ -205,6 +205,8 @@ type FlatSpec struct {
 	// End, if set, is called after the last case of every work item (and after a
 	// replayed case); it lets a unit batch expensive checks across cases.
 	End func() []Violation
+	// Outcomes makes the engine tally the case keys by name (use when there are few).
+	Outcomes bool
 	// Count, if set, is incremented by Case with the number of behaviours it checked
 	// (a case may enumerate many); the engine then reports that as evaluations.
 	Count *int64
@@ -256,6 +258,9 @@ func (s *FlatSpec) Explore(c *Ctx, prefix json.RawMessage, split bool) (children
 		}
 		c.Acc.Nodes++
 		c.Acc.State(s.UnitName+"/"+key, nt)
+		if s.Outcomes {
+			c.Acc.Outcomes[s.UnitName+": "+key]++
+		}
 		if sample != nil && (i == lo || i == hi-1) {
 			c.Acc.Sample(sample, 6)
 		}
